@@ -63,7 +63,12 @@ func (k *checker) precompiles(use []evmkit.Epoch, thorough bool) {
 			delta := ms.TotalAlloc - before
 			k.run.Eval(1)
 			k.add(&k.counts, "precompile-alloc/call", 1)
-			if limit := uint64(8<<20) + 512*g; delta > limit && out.f == nil {
+			// what a call may allocate is bounded by what it paid for (gas consumed), not by what it was offered
+			used := g
+			if out.left <= g {
+				used = g - out.left
+			}
+			if limit := uint64(8<<20) + 512*used; delta > limit && out.f == nil {
 				// re-measure twice: the bound must be exceeded every time
 				again := 0
 				for r := 0; r < 2; r++ {
@@ -76,7 +81,7 @@ func (k *checker) precompiles(use []evmkit.Epoch, thorough bool) {
 					}
 				}
 				if again == 2 {
-					f := &finding{oracle: "alloc", op: "modexp", what: fmt.Sprintf("modexp allocated %d bytes with %d gas supplied (bound %d)", delta, g, limit)}
+					f := &finding{oracle: "alloc", op: "modexp", what: fmt.Sprintf("modexp allocated %d bytes while consuming %d gas (bound %d)", delta, used, limit)}
 					k.run.Violate(ev.Violation{Scenario: c.Scenario, Oracle: "alloc", CaseID: "call/op=modexp", Detail: c.detail(f)})
 				}
 			}
